@@ -13,6 +13,9 @@ CHECKS = {
  "C04": ("exploration", "TLC trace validation of a per-value drop ledger",
          "Every construction, clone, deserialization and drop of every individually identified component value and resource is logged; after every event TLC requires the live-value set of the ledger to equal the values reachable in the observed worlds (no leak, no premature or double drop, no aliasing) and emptiness after all worlds are dropped.",
          "Zero-sized and 1-byte components are ledgered by count, not identity.", "6 C04"),
+ "C05": ("other", "TLC trace validation of the allocator-call protocol recorded around every library call + self-checking payloads + crash capture",
+         "A global-allocator wrapper records every alloc/dealloc/realloc issued inside library calls (and later calls on those blocks) with what its book knows about the block; TLC requires: no release/resize of a dead or unknown block (double free, stray pointer), release/resize layout equal to the allocation layout (the 'Vec rebuilt with wrong capacity/type' failure), no library block left after all worlds are dropped. Freed blocks are poisoned and quarantined and every component read verifies a type tag + checksum, so type confusion and reads through stale columns are observed; a crash inside a safe call sequence is recorded and reported. Registry mixes zero-sized, 1-byte, small, align(64) and heap-owning components; drivers exercise reserve, shrink_to_fit, batch adoption and every view combination.",
+         "Does not decide in-bounds-of-something-else accesses that are not component reads; allocations made on rayon worker threads are not attributed.", "6 C05 and 10"),
  "C06": ("model_checking", "TLC model checking (deserialization accepts every reachable store) + TLC validation of real round trips and lock-step twins",
          "MCWorld Inv_C06 + Inv_C01 over SerDe; real round trips through serde_json and serde_assert token streams (human-readable and compact), checked for Ok, equality in both directions, same content/resources, StoreInv of the result and identical behaviour of original and copy under mirrored further operations.",
          "Bounded; three encodings.", "6 C06"),
@@ -57,7 +60,7 @@ def main():
             "add_only": True,
         },
         "engines": [
-            {"name": "world", "path": "tools/pipe_world.py", "serves_properties": ["C01", "C02", "C03", "C04", "C06", "C09", "C10", "C13", "C15", "C16"],
+            {"name": "world", "path": "tools/pipe_world.py", "serves_properties": ["C01", "C02", "C03", "C04", "C05", "C06", "C09", "C10", "C13", "C15", "C16"],
              "kind_free_text": "spec/WorldStore.tla + MCWorld.tla model-checked by TLC; harness/worlddrv executes histories on real Worlds; spec/TraceWorld.tla validates every event"},
             {"name": "sched", "path": "tools/pipe_sched.py", "serves_properties": ["C07", "C08", "C12"],
              "kind_free_text": "spec/Schedule.tla + MCSchedule.tla model-checked by TLC; generated schedule bins run under the brood_verif fork/join shim; spec/TraceSchedule.tla validates every run"},
